@@ -7,7 +7,8 @@
 (*       runs (class statement for marker-derived classes, first remote dump for          *)
 (*       duck-typed ones);                                                                *)
 (* (ii)  pickler dispatch per type kind x remote flag: the private dispatch_table         *)
-(*       replaces copyreg.dispatch_table (SeedCopyreg = FALSE is the code as written);    *)
+(*       replaces copyreg.dispatch_table (SeedCopyreg = FALSE: empty private table, the   *)
+(*       code before repo commit 4b3bc0a; TRUE: seeded from copyreg's, the code now);     *)
 (* (iii) dump: depth-first walk with memo over an abstract object graph (work stack, one  *)
 (*       transition per visited reference), __getstate__(remote) call log, children_names,*)
 (*       the stream of REDUCE/BUILD events of the opt-in objects;                         *)
@@ -17,8 +18,9 @@
 (*       thread including failing ones (raising __setstate__, truncated stream), two      *)
 (*       threads, and every load repeated on a fresh thread.                              *)
 (* Algo = "asis" is the frame discipline as written (positional frames: stack + iter);    *)
-(* Algo = "fixed" is the corrected discipline of proposed_fixes/C15_*.diff (one frame per *)
-(* open opt-in object, found by the serial of the object that claimed it at dump time).   *)
+(* Algo = "fixed" is the corrected discipline of                                          *)
+(* proposed_fixes/C14_C15_address_patch_frames_by_owner.diff (one frame per open opt-in   *)
+(* object, found by the serial of the object that claimed it at dump time).               *)
 EXTENDS Integers, Sequences, FiniteSets, TLC, Json, RemotePickleProps
 
 CONSTANTS Scns, Algo, SeedCopyreg
@@ -336,16 +338,34 @@ Inv_FreshStart == \A e \in 1..(2 * K) : (pc = "load" /\ ex[e].st = "run" /\ ex[e
                      (tl[Thr(e)].unused /\ tl[Thr(e)].has /\ Len(tl[Thr(e)].stack) <= 1)
 Live_Terminates == <>Terminal
 
-\* ---- witnesses (must be VIOLATED: the antecedents are reachable) ----
-W_NoWarning    == ~(Terminal /\ scn.t = "cls" /\ created = "raised:Warning")
-W_NoDumpWarning == ~(Terminal /\ scn.t = "cls" /\ res0.outcome = "raised:Warning")
-W_NoOptInFalse == ~(Terminal /\ scn.t = "cls" /\ ~scn.remote /\ scn.op = "rp" /\ cached = "optin")
-W_NoSiblings   == ~(pc = "load" /\ \E t \in DOMAIN tl : Len(tl[t].stack) >= 3)
-W_NoPatchDelivered == ~(Terminal /\ scn.t = "graph" /\ \E e \in 1..K : ex[e].out = "ok" /\ ex[e].pm # {})
-W_NoFailure    == ~(Terminal /\ scn.t = "graph" /\ \E e \in 1..K : ex[e].out = "raised:injected")
-W_NoResidue    == ~(pc = "load" /\ \E e \in 2..K : CanStart(e) /\ tl[Thr(e)].has /\ tl[Thr(e)].stack # <<>>)
-W_NoConcurrency == ~(pc = "load" /\ K >= 2 /\ ex[1].st = "run" /\ ex[2].st = "run" /\ ex[1].pos > 1 /\ ex[2].pos > 1)
-W_NoMemoGet    == ~(pc = "dump" /\ work # <<>> /\ Head(work).a = "v" /\ Head(work).n \in memo /\ Node(Head(work).n).kind = "opt")
+\* ---- the code as written: the same invariants, weakened by exactly the listed shapes ----
+AsIs_C13_NonOptInEqualsPickle == Terminal => (C13_NonOptInEqualsPickle(Rec) \/ Known_C13(scn))
+AsIs_C13_RemoteFalseIsStd     == Terminal => (C13_RemoteFalseIsStd(Rec) \/ Known_C13(scn))
+AsIs_C14_LoadsSucceeds == (Terminal /\ scn.t = "graph") => (C14_LoadsSucceeds(Rec) \/ Known_C15(scn))
+AsIs_C15_Delivery      == (Terminal /\ scn.t = "graph") => (C15_Delivery(Rec) \/ Known_C15(scn))
+AsIs_C15_OnlyAddressed == (Terminal /\ scn.t = "graph") => (C15_OnlyAddressed(Rec) \/ Known_C15(scn))
+
+\* ---- witnesses: every antecedent / fault is reachable (W_x must be VIOLATED; WitDump names the reached ones) ----
+R_Warning      == Terminal /\ scn.t = "cls" /\ created = "raised:Warning"
+R_DumpWarning  == Terminal /\ scn.t = "cls" /\ res0.outcome = "raised:Warning"
+R_OptInFalse   == Terminal /\ scn.t = "cls" /\ ~scn.remote /\ scn.op = "rp" /\ cached = "optin"
+R_StdOp        == Terminal /\ scn.t = "cls" /\ scn.op \in StdOps /\ Len(res0.gslog) >= 2
+R_Copyreg      == Terminal /\ scn.t = "leaf" /\ scn.kind = "copyreg"
+R_Siblings     == pc = "load" /\ \E t \in DOMAIN tl : Len(tl[t].stack) >= 3
+R_PatchDelivered == Terminal /\ scn.t = "graph" /\ \E e \in 1..K : ex[e].out = "ok" /\ ex[e].pm # {}
+R_Failure      == Terminal /\ scn.t = "graph" /\ \E e \in 1..K : ex[e].out = "raised:injected"
+R_Residue      == pc = "load" /\ \E e \in 2..K : CanStart(e) /\ tl[Thr(e)].has /\ tl[Thr(e)].stack # <<>>
+R_Concurrency  == pc = "load" /\ K >= 2 /\ ex[1].st = "run" /\ ex[2].st = "run" /\ ex[1].pos > 1 /\ ex[2].pos > 1
+R_MemoGet      == pc = "dump" /\ work # <<>> /\ Head(work).a = "v" /\ Head(work).n \in memo /\ Node(Head(work).n).kind = "opt"
+R_StdPath      == Terminal /\ scn.t = "graph" /\ scn.op = "rp" /\ ~UsesRR /\ OptNodes(scn) # {}
+W_Warning == ~R_Warning
+W_Siblings == ~R_Siblings
+W_Residue == ~R_Residue
+Wit(name, reached) == reached => PrintT(<<"WIT", name>>)
+WitDump == /\ Wit("Warning", R_Warning) /\ Wit("DumpWarning", R_DumpWarning) /\ Wit("OptInFalse", R_OptInFalse)
+           /\ Wit("StdOp", R_StdOp) /\ Wit("Copyreg", R_Copyreg) /\ Wit("Siblings", R_Siblings)
+           /\ Wit("PatchDelivered", R_PatchDelivered) /\ Wit("Failure", R_Failure) /\ Wit("Residue", R_Residue)
+           /\ Wit("Concurrency", R_Concurrency) /\ Wit("MemoGet", R_MemoGet) /\ Wit("StdPath", R_StdPath)
 
 \* ---- every terminal state as a case for the replay on the real code ----
 CaseDump == Terminal => PrintT(<<"CASE", ToJson(Rec)>>)
